@@ -206,7 +206,7 @@ class Prop:
                    "caps hold and the tensor is unchanged when no cap binds"]
     THEOREMS = ["C04_rank_choice_sound", "C04_rank_choice_minimal", "C04_rank_bounds", "C04_exact_step", "C04_step_error",
                 "C04_norm_is_core_norm", "C04_sandwich_norm", "C04_core_difference", "C04_orthogonal_steps", "C04_pythagoras",
-                "C04_steps_within_budget", "C04_tt_budget", "C04_tucker_budget", "C04_round_budget_positive", "C04_round_budget"]
+                "C04_sweep_error", "C04_step_error_orthogonal", "C04_steps_within_budget", "C04_round_tt_bound", "C04_tt_budget", "C04_tucker_budget", "C04_round_budget_positive", "C04_round_budget"]
 
     # ------------------------------------------------------------------ generation
     def generate(self, rng, tier):
